@@ -317,6 +317,59 @@ def rule_hand(ctx, f):
             ctx.check(ok, "C15-KEYS-H", name + "#required-" + k,
                       "the reader requires /%s but the writer builds a dictionary without it: the written form cannot be read back" % k, wb["span"],
                       detail="/%s written whenever a dictionary is built" % k)
+        # DEFAULT: a key the writer leaves out when a field equals some constant variant must be read back, when absent, as that very variant
+        flw3 = Flow(wb)
+        for bi, t in F.calls(wb):
+            if not F.callee_name(t).startswith(DICT + "insert"):
+                continue
+            k = const_of(flw3, t, 1)
+            if k is None:
+                continue
+            for ci, ct in F.calls(wb):
+                if last_seg(F.callee_name(ct)) not in ("eq", "ne") or ct.get("target") is None or not cfg.dominates(ci, bi):
+                    continue
+                sw = wb["blocks"][ct["target"]]["term"]
+                if sw["k"] != "switch" or F.op_local(sw["discr"]) != ct["dest"][0]:
+                    continue
+                # the constant operand of the comparison
+                vw = None
+                for a0 in ct["args"]:
+                    l0 = F.op_local(a0)
+                    for d0 in (flw3.defs.get(l0, []) if l0 is not None else []):
+                        if d0[0] == "assign" and d0[2][0] == "ref":
+                            for d1 in flw3.defs.get(d0[2][1][0], []):
+                                if d1[0] == "assign" and d1[2][0] == "use" and d1[2][1][0] == "const" and d1[2][1][1].get("variant"):
+                                    vw = (d1[2][1][1]["ty"].lstrip("&"), d1[2][1][1]["variant"])
+                if vw is None:
+                    continue
+                arms = {a[0]: a[1] for a in sw["arms"]}
+                true_t = arms.get(1, sw["otherwise"])
+                false_t = arms.get(0, sw["otherwise"])
+                in_true = bi == true_t or bi in cfg.reachable_from(true_t, avoid={ct["target"]})
+                in_false = bi == false_t or bi in cfg.reachable_from(false_t, avoid={ct["target"]})
+                if in_true == in_false:
+                    continue
+                isne = last_seg(F.callee_name(ct)) == "ne"
+                omitted_when_equal = (isne and in_true) or (not isne and in_false)
+                if not omitted_when_equal:
+                    continue
+                # the reader's value for an absent key: the aggregate of that enum built on the None arm of remove(k) / get(k)
+                vr = set()
+                for rbi, rt in F.calls(rb):
+                    if F.callee_name(rt) in (DICT + "remove", DICT + "get") and const_of(flr, rt, 1) == k and rt.get("target") is not None:
+                        rsw = rb["blocks"][rt["target"]]["term"]
+                        if rsw["k"] != "switch":
+                            continue
+                        none_t = [a[1] for a in rsw["arms"] if a[0] == 0] or [rsw["otherwise"]]
+                        some_t = [a[1] for a in rsw["arms"] if a[0] == 1] or [rsw["otherwise"]]
+                        reg = (rcfg.reachable_from(none_t[0]) - rcfg.reachable_from(some_t[0])) | {none_t[0]}
+                        for r in reg:
+                            for st in rb["blocks"][r]["stmts"]:
+                                if st[0] == "assign" and st[2][0] == "aggregate" and st[2][1].get("adt") == vw[0]:
+                                    vr.add(st[2][1].get("variant"))
+                ctx.check(vr == {vw[1]}, "C15-KEYS-H", "%s#default-%s" % (name, k), "the writer leaves /%s out when the field is %s::%s, but the reader reads an absent /%s as %s: "
+                          "the value changes on a write-read cycle" % (k, vw[0].split("::")[-1], vw[1], k, sorted(vr) or "something else"), t["span"],
+                          detail="omitted exactly when the field has the reader's default for an absent key")
         # OTHER
         if keeps_rest:
             used = False
@@ -495,6 +548,7 @@ def rule_absent(ctx, f):
         ctx.check(bool(nulls), "C15-ABSENT", self_s + "#null", "%s is not written as Null" % what, b["span"], detail="%s -> Null" % what)
     n = 0
     bad = []
+    late = []
     for b in f.bodies.values():
         im = b.get("impl") or {}
         if im.get("trait") == "object::ToDict" and b["id"].endswith("::to_dict") and derived(b, "ObjectWrite"):
@@ -531,10 +585,19 @@ def rule_absent(ctx, f):
                         arms = {a[0]: a[1] for a in tt["arms"]}
                         if pv["Null"] in arms:
                             guarded = bi not in ccp_reachable(b, arms[pv["Null"]])
+                            # ... and the tested value is what the field's writer returned, not that value after it was wrapped into an
+                            # indirect object (a reference to a `null` object is not Null)
+                            tested = [s2[2][1][0] for s2 in bb["stmts"] if s2[0] == "assign" and s2[1] == [dl] and s2[2][0] == "discr"][0]
+                            calls_in = {last_seg(a[1]) for a in fl.origins(tested, passthrough=("branch",)) if a[0] == "call"}
+                            if calls_in - {"to_primitive", "branch"}:
+                                guarded = False
+                                late.append(b["id"])
                     if not guarded:
                         bad.append(b["id"])
     ctx.floor("C15-ABSENT", n, 200, "field inserts in derived writers")
-    ctx.check(not bad, "C15-ABSENT", "derived-writers#skip-null", "derived writers insert Null values: %s" % sorted(set(bad))[:5], detail="%d field inserts skip Null" % n)
+    ctx.check(not bad, "C15-ABSENT", "derived-writers#skip-null", "derived writers insert Null values: %s%s" % (sorted(set(bad))[:5],
+              (" (in %s the Null test is applied after the value was wrapped into an indirect object: an absent optional is written as a reference to a null object)" % sorted(set(late))[:3]) if late else ""),
+              detail="%d field inserts skip Null" % n)
 
 
 def run(ctx):
